@@ -46,9 +46,17 @@ type recReader struct {
 	src   sampling.PRNG
 	bytes int64
 	calls int64
+	// short: when set, a Read delivers at most short() bytes (with a nil error), as any io.Reader may:
+	// the fault of the randomness seam
+	short func() int
 }
 
 func (r *recReader) Read(p []byte) (int, error) {
+	if r.short != nil && len(p) > 1 {
+		if k := r.short(); k < len(p) {
+			p = p[:k]
+		}
+	}
 	n, err := r.src.Read(p)
 	r.bytes += int64(n)
 	r.calls++
@@ -128,6 +136,9 @@ type c17Stats struct {
 	nonzero, pos float64
 	unifSum      float64
 	unifN        float64
+	// successive coefficients of one sample: how often a zero follows a +1 / a -1
+	afterPos, afterPosZero float64
+	afterNeg, afterNegZero float64
 }
 
 func (p c17) Run(ctx *core.RunCtx) {
@@ -217,6 +228,22 @@ func (p c17) Run(ctx *core.RunCtx) {
 	keyA := append([]byte{}, key...)
 	A := newC17Side(ctx, keyA, r, d)
 	B := newC17Side(ctx, append([]byte{}, key...), r, d)
+	if ch.Chance("short-reads-from-source", 1, 3) {
+		// the system's source delivers its bytes in pieces (a legal io.Reader); the twin's in one piece
+		sg := core.NewXoshiro(uint64(ch.Draw("short-read-seed", 1<<16)))
+		mode := ch.Draw("short-read-mode", 3)
+		A.rec.short = func() int {
+			switch mode {
+			case 0:
+				return 1 + int(sg.Next()%7)
+			case 1:
+				return 1 + int(sg.Next()%1000)
+			default:
+				return 1000
+			}
+		}
+		ctx.Count("fault.short-reads-from-source", 1)
+	}
 	if ch.Bool("wipe-caller-key") {
 		for i := range keyA {
 			keyA[i] = 0xA5
@@ -275,7 +302,7 @@ func (p c17) Run(ctx *core.RunCtx) {
 	if len(A.views) > 2 {
 		ctx.Count("probe.histories-with-3+-views", 1)
 	}
-	if A.rec.bytes != B.rec.bytes || A.rec.calls != B.rec.calls {
+	if A.rec.bytes != B.rec.bytes || A.rec.short == nil && A.rec.calls != B.rec.calls {
 		ctx.Fail("twin", d.kindName()+"|source-consumption", "same key and same calls, but the system drew %d bytes in %d reads and the twin %d bytes in %d reads", A.rec.bytes, A.rec.calls, B.rec.bytes, B.rec.calls)
 		return
 	}
@@ -324,6 +351,16 @@ func (p c17) Run(ctx *core.RunCtx) {
 		ctx.Count("oracle.raw-stream-reset", 1)
 		if !bytes.Equal(b1, b2) {
 			ctx.Fail("reset-replay", "KeyedPRNG|raw-stream", "KeyedPRNG: %d bytes read, Reset, read again as %d+%d bytes: streams differ", len(b1), cut, len(b1)-cut)
+			return
+		}
+		// Key(): documented to return the key from which a new generator produces the same stream
+		k1.Reset()
+		kk, _ := sampling.NewKeyedPRNG(k1.Key())
+		b4 := make([]byte, len(b1))
+		kk.Read(b4)
+		ctx.Count("oracle.key-accessor", 1)
+		if !bytes.Equal(b1, b4) {
+			ctx.Fail("reset-replay", "KeyedPRNG|key-accessor", "NewKeyedPRNG(p.Key()) does not reproduce the stream of p (Key() returned %d bytes)", len(k1.Key()))
 			return
 		}
 		// distinct key: unrelated stream
@@ -555,6 +592,20 @@ func (p c17) support(ctx *core.RunCtx, rl *ring.Ring, d c17Dist, sample ring.Pol
 			if x.Sign() > 0 {
 				stats.pos++
 			}
+			if j > 0 {
+				switch vals[j-1].Sign() {
+				case 1:
+					stats.afterPos++
+					if x.Sign() == 0 {
+						stats.afterPosZero++
+					}
+				case -1:
+					stats.afterNeg++
+					if x.Sign() == 0 {
+						stats.afterNegZero++
+					}
+				}
+			}
 		}
 	}
 	if d.kind == 3 {
@@ -641,6 +692,17 @@ func (p c17) endStats(ctx *core.RunCtx, d c17Dist, st *c17Stats, r *ring.Ring) {
 			sb := st.pos / st.nonzero
 			if math.Abs(sb-0.5) > 8*0.5/math.Sqrt(st.nonzero) {
 				ctx.Fail("moments", "ternaryP|sign-balance", "fraction of +1 among %.0f non-zero coefficients is %.4f", st.nonzero, sb)
+				return
+			}
+		}
+		// coefficients are independent: whether a zero follows does not depend on the sign before it
+		if st.afterPos >= 300 && st.afterNeg >= 300 && d.p > 0.05 && d.p < 0.95 {
+			ctx.Count("oracle.serial-independence", 1)
+			zp, zn := st.afterPosZero/st.afterPos, st.afterNegZero/st.afterNeg
+			se := math.Sqrt((1 - d.p) * d.p * (1/st.afterPos + 1/st.afterNeg))
+			if math.Abs(zp-zn) > 8*se+0.01 {
+				ctx.Fail("moments", "ternaryP|serial-dependence", "a zero follows a +1 with frequency %.3f (%.0f cases) and a -1 with frequency %.3f (%.0f cases); independent coefficients give %.3f for both (P=%.4f, 8 standard errors = %.3f)", zp, st.afterPos, zn, st.afterNeg, 1-d.p, d.p, 8*se)
+				return
 			}
 		}
 	case 3:
